@@ -11,6 +11,7 @@ import (
 	"net"
 	"strings"
 	"sync"
+	"time"
 
 	"github.com/quic-go/quic-go"
 	"go.brendoncarroll.net/stdctx/logctx"
@@ -150,6 +151,9 @@ func (s *Swarm[T]) Ask(ctx context.Context, resp []byte, dst Addr[T], data p2p.I
 		defer stream.Close()
 
 		log.Debug("opened bidi-stream", logctx.Any("stream-id", stream.StreamID()))
+		// a context without a deadline can still be cancelled: unblock the stream when it is
+		stop := context.AfterFunc(ctx, func() { stream.SetDeadline(time.Now()) })
+		defer stop()
 		// deadlines
 		if deadline, yes := ctx.Deadline(); yes {
 			if err := stream.SetWriteDeadline(deadline); err != nil {
@@ -167,6 +171,9 @@ func (s *Swarm[T]) Ask(ctx context.Context, resp []byte, dst Addr[T], data p2p.I
 		n, err = readFrame(stream, resp, s.mtu)
 		return err
 	}); err != nil {
+		if ctxErr := ctx.Err(); ctxErr != nil {
+			return 0, ctxErr
+		}
 		return 0, err
 	}
 	return n, nil
